@@ -23,11 +23,17 @@ def cmd_setup():
     errs = vplib.regenerate()
     if errs:
         print("setup: translator errors:\n" + "\n".join(errs))
-    ok, log = vplib.coq_build(["all"], timeout=7200)
-    if not ok:
+    # build everything that builds (-k); what matters is that every registered check's theorems compile
+    ok, log = vplib.coq_build(["-k", "all"], timeout=7200)
+    man = json.load(open(os.path.join(vplib.VERIF, "MANIFEST.json")))
+    missing = [c["property_id"] for c in man["checks"]
+               if not os.path.exists(os.path.join(vplib.COQ, "Props", c["property_id"] + ".vo"))]
+    if missing:
         print(log[-4000:])
-        print("setup: Coq build failed")
+        print("setup: Coq build failed for the theorems of: %s" % ", ".join(missing))
         return 1
+    if not ok:
+        print("setup: note: some Coq files outside the registered checks did not build")
     for prof in ("debug", "release"):
         b, out = vplib.harness_build(prof)
         if b is None:
